@@ -206,7 +206,7 @@ class Ctx:
         rc, out, dt, logp = self._tlc(subdir, module, cfg, 1, timeout, (), env=e,
                                       java="-Xss1g -Xmx8g -Dtlc2.tool.queue.IStateQueue=StateDeque", tag=tag)
         gen, dist, _ = self._stats(out)
-        r = {"accepted": False, "n": 0, "at": None, "event": None, "invariant": None, "log": logp, "wall_s": round(dt, 1), "states": dist}
+        r = {"accepted": False, "n": 0, "at": None, "event": None, "invariant": None, "log": logp, "wall_s": round(dt, 1), "states": dist, "module": module, "cfg": cfg}
         m = re.search(r'<<"TRACE_ACCEPTED", (\d+)>>', out)
         if m and "Model checking completed. No error has been found." in out:
             r["accepted"], r["n"] = True, int(m.group(1))
@@ -261,11 +261,41 @@ class Ctx:
         lines = open(trace).read().splitlines()
         at = r["at"] or len(lines)
         prefix = lines[max(0, at - 30):at]
+        # the events from the last history start up to the rejected one: enough to re-validate the violation (bin/check <id> --replay)
+        start = 0
+        for k in range(min(at, len(lines)) - 1, -1, -1):
+            try:
+                o = json.loads(lines[k])
+            except Exception:
+                continue
+            if o.get("op") in ("reset", "newcase", "init", "cr_start") or o.get("kind") == "setup":
+                start = k
+                break
+        full_prefix = lines[start:at][-4000:]
         opname = ev.get("op") if isinstance(ev, dict) else None
         key = "%s:%s:%s" % (key_prefix, opname or r["invariant"], hashlib.sha1((lines[at - 1] if 0 < at <= len(lines) else "").encode()).hexdigest()[:8])
         self.violation(key, "%s: event %s of %s is not a step of the specification (invariant=%s): %s" % (what, at, os.path.basename(trace), r["invariant"], json.dumps(ev)[:600]),
-                       {"trace_file": trace, "rejected_at_line": at, "invariant": r["invariant"], "last_events": prefix, "tlc_log": r["log"]})
+                       {"trace_file": trace, "rejected_at_line": at, "invariant": r["invariant"], "last_events": prefix, "tlc_log": r["log"],
+                        "trace_module": r.get("module"), "trace_cfg": r.get("cfg"), "trace_prefix": full_prefix})
         return False
+
+    def replay_trace(self, path):
+        """bin/check <id> --replay <file>: re-validate the stored event prefix of a trace violation with TLC."""
+        obj = json.load(open(path))
+        rp = obj.get("replay", {})
+        print("property=%s key=%s\n%s" % (obj.get("property"), obj.get("key"), obj.get("what", "")[:1500]))
+        if not isinstance(rp, dict) or not rp.get("trace_prefix") or not rp.get("trace_module"):
+            print(json.dumps(rp, indent=1)[:6000])
+            return 0
+        tf = self.path("replay.ndjson")
+        open(tf, "w").write("\n".join(rp["trace_prefix"]) + "\n")
+        r = self.tlc_trace(rp["trace_module"], rp["trace_cfg"], tf, timeout=1800, tag="replay")
+        if r["accepted"]:
+            print("REPLAY: the stored events are accepted by the specification now (the violation does not reproduce on the stored prefix)")
+            return 0
+        print("REPLAY: reproduced - event %s of the stored prefix is not a step of the specification (invariant=%s): %s" % (r["at"], r["invariant"], json.dumps(r["event"])[:1500]))
+        print("VIOLATION property=%s replay=%s" % (self.pid, path))
+        return 1
 
     def add_samples(self, items, limit=3):
         for it in items[:limit]:
